@@ -17,6 +17,7 @@ import (
 	"bufio"
 	"bytes"
 	"compress/gzip"
+	"compress/zlib"
 	"context"
 	"encoding/hex"
 	"encoding/json"
@@ -35,6 +36,7 @@ import (
 	"strings"
 	"sync"
 	"sync/atomic"
+	"syscall"
 	"time"
 	"unsafe"
 
@@ -196,11 +198,15 @@ type Obs struct {
 	BodyLen int    `json:"body_len"`
 	// what the Content-Encoding of the request decodes to (counted by the harness up to Limit+2 bytes; the body itself
 	// without an encoding or when it does not decode), and the decoded-size limit the router was configured with
-	DecodedLen int            `json:"decoded_len"`
-	Limit      int            `json:"limit"`
-	Rows       map[string]int `json:"rows,omitempty"`   // rows that reached the fake back-end while the request was served, by table
-	Canary     string         `json:"canary,omitempty"` // outcome of the follow-up well-formed request on the same route family ("" = not sent)
-	Detail     string         `json:"detail,omitempty"`
+	DecodedLen int `json:"decoded_len"`
+	Limit      int `json:"limit"`
+	// stream "limit": bytes that can be read from r.Body once the route's first PreRequest (WithOverallContextMiddleware) has run
+	// on the same request - what the route's parser is handed (counted up to Limit + 1 MiB; -1: not measured; 0 when refused)
+	Handed       int            `json:"handed"`
+	HandedDetail string         `json:"handed_detail,omitempty"`
+	Rows         map[string]int `json:"rows,omitempty"`   // rows that reached the fake back-end while the request was served, by table
+	Canary       string         `json:"canary,omitempty"` // outcome of the follow-up well-formed request on the same route family ("" = not sent)
+	Detail       string         `json:"detail,omitempty"`
 }
 
 type Case struct {
@@ -544,6 +550,9 @@ func (c *Case) body(r *rand.Rand) []byte {
 			return gz(paddedPprof(rand.New(rand.NewSource(1)), c.Req.BodyGen.Bytes))
 		case "frame":
 			return frameBody(c.F)
+		case "ce_bomb":
+			// Bytes times 'a' under the Content-Encoding of the request, compressed as a stream (the harness never holds the decoded bytes)
+			return encodeStream(c.header("Content-Encoding"), io.LimitReader(fillReader{}, int64(c.Req.BodyGen.Bytes)))
 		case "limit_payload":
 			return encodeAs(c.header("Content-Encoding"), limitPayload(c.Req.BodyGen.Route, c.Req.BodyGen.Bytes))
 		}
@@ -569,28 +578,53 @@ func encodeAs(ce string, b []byte) []byte {
 	switch ce {
 	case "gzip":
 		return gz(b)
-	case "snappy":
-		var buf bytes.Buffer
-		w := snappy.NewBufferedWriter(&buf)
-		w.Write(b)
-		w.Close()
+	case "", "identity":
+		return b
+	}
+	return encodeStream(ce, bytes.NewReader(b))
+}
+
+// the Content-Encoding values the harness can produce (the list it SENDS is read from the source: contentEncodings)
+var knownEncodings = map[string]bool{"": true, "identity": true, "gzip": true, "x-gzip": true, "deflate": true, "zlib": true, "snappy": true, "x-snappy-framed": true}
+
+func encodeStream(ce string, src io.Reader) []byte {
+	var buf bytes.Buffer
+	var w io.WriteCloser
+	switch ce {
+	case "gzip", "x-gzip":
+		w, _ = gzip.NewWriterLevel(&buf, gzip.BestSpeed)
+	case "deflate", "zlib":
+		w, _ = zlib.NewWriterLevel(&buf, zlib.BestSpeed) // RFC 9110: "deflate" is the zlib format
+	case "snappy", "x-snappy-framed":
+		w = snappy.NewBufferedWriter(&buf)
+	default:
+		// no encoder for this value: the bytes go out as they are (the check reports the missing encoder)
+		io.Copy(&buf, src)
 		return buf.Bytes()
 	}
-	return b
+	io.Copy(w, src)
+	w.Close()
+	return buf.Bytes()
 }
 
 // decodedLen: how many bytes the Content-Encoding of the request decodes to, counted up to max
 func decodedLen(ce string, body []byte, max int) int {
 	var rd io.Reader
 	switch ce {
-	case "gzip":
+	case "gzip", "x-gzip":
 		g, err := gzip.NewReader(bytes.NewReader(body))
 		if err != nil {
 			return len(body)
 		}
 		rd = g
-	case "snappy":
+	case "snappy", "x-snappy-framed":
 		rd = snappy.NewReader(bytes.NewReader(body))
+	case "deflate", "zlib":
+		z, err := zlib.NewReader(bytes.NewReader(body))
+		if err != nil {
+			return len(body)
+		}
+		rd = z
 	default:
 		return len(body)
 	}
@@ -892,6 +926,51 @@ var fillRoutes = []limitRoute{
 	{"lokiproto", "/loki/api/v1/push", "application/x-protobuf"},
 }
 
+// contentEncodings: the case list of the Content-Encoding switch of WithOverallContextMiddleware, read from the source by
+// translate/gen_goroutines_writer on every run (side file, --phrases-file): a case ADDED to the switch is driven by the next run
+var contentEncodings = []string{"", "gzip", "snappy"}
+
+func ceName(ce string) string {
+	if ce == "" {
+		return "plain"
+	}
+	return ce
+}
+
+// genLimitCE: the fixed block of stream "limit": for every accepted Content-Encoding a well-formed payload decoding to just over the
+// payload limit (k = 0: limit+1, k = 1: 8 x limit) and a bomb (k = 2: 1 GiB of 'a' on a route that buffers its body; the worker
+// serves it with its address space capped, see capAddressSpace)
+func genLimitCE(r *rand.Rand, id int, ce string, k int) Case {
+	L := decodedLimit
+	c := Case{ID: id, Stream: "limit"}
+	var hdr []KV
+	if ce != "" {
+		hdr = []KV{{"Content-Encoding", ce}}
+	}
+	if k == 2 {
+		ft := fillRoutes[r.Intn(len(fillRoutes))]
+		n := 1 << 30
+		c.L = &LimDesc{CE: ce, Decoded: n}
+		c.Req.Path = ft.path
+		c.Req.Headers = append([]KV{{"Content-Type", ft.ct}}, hdr...)
+		if ce == "" {
+			c.Req.Fill = n
+		} else {
+			c.Req.BodyGen = &BodyGen{Kind: "ce_bomb", Bytes: n}
+		}
+		c.Class = "limit/" + ft.name + "/" + ceName(ce) + "/over/ce-bomb"
+		return c
+	}
+	rt := limitRoutes[r.Intn(len(limitRoutes))]
+	d := []int{L + 1, 8 * L}[k]
+	c.L = &LimDesc{CE: ce, Decoded: d}
+	c.Req.Path = rt.path
+	c.Req.Headers = append([]KV{{"Content-Type", rt.ct}}, hdr...)
+	c.Req.BodyGen = &BodyGen{Kind: "limit_payload", Bytes: d, Route: rt.name}
+	c.Class = "limit/" + rt.name + "/" + ceName(ce) + "/over/just-over"
+	return c
+}
+
 func genLimit(r *rand.Rand, id int) Case {
 	rt := limitRoutes[r.Intn(len(limitRoutes))]
 	L := decodedLimit
@@ -935,7 +1014,13 @@ func genLimit(r *rand.Rand, id int) Case {
 	}
 	sizes := []int{L - 4096, L - 1, L, L + 1, L + 2, L + 4096, 2 * L, 4*L + 3, 8 * L, 1024 + r.Intn(L), L + 1 + r.Intn(3*L)}
 	d := sizes[r.Intn(len(sizes))]
-	ce := pick(r, "", "gzip", "gzip", "snappy", "snappy")
+	opts := []string{""} // every accepted encoding twice as often as none (one draw: the stream of a seed is unchanged while the list is)
+	for _, e := range contentEncodings {
+		if e != "" {
+			opts = append(opts, e, e)
+		}
+	}
+	ce := opts[r.Intn(len(opts))]
 	c := Case{ID: id, Stream: "limit", L: &LimDesc{CE: ce, Decoded: d}}
 	c.Req.Path = rt.path
 	c.Req.Headers = []KV{{"Content-Type", rt.ct}}
@@ -947,7 +1032,7 @@ func genLimit(r *rand.Rand, id int) Case {
 	if d > L {
 		rel = "over"
 	}
-	c.Class = "limit/" + rt.name + "/" + map[string]string{"": "plain", "gzip": "gzip", "snappy": "snappy"}[ce] + "/" + rel
+	c.Class = "limit/" + rt.name + "/" + ceName(ce) + "/" + rel
 	return c
 }
 
@@ -1629,15 +1714,7 @@ func classOf(status int) string {
 	return fmt.Sprintf("status-%d", status)
 }
 
-func serve(router *mux.Router, c *Case, body []byte, deadline time.Duration) (outcome string, status int, detail string) {
-	q := url.Values{}
-	for _, kv := range c.Req.Query {
-		q.Add(kv[0], kv[1])
-	}
-	u := c.Req.Path
-	if len(q) > 0 {
-		u += "?" + q.Encode()
-	}
+func newRequest(c *Case, u string, body []byte) *http.Request {
 	var rd io.Reader = bytes.NewReader(body)
 	if k := c.Req.FailAfter; k > 0 && k <= len(body) {
 		rd = io.MultiReader(bytes.NewReader(body[:k]), failingReader{})
@@ -1651,6 +1728,63 @@ func serve(router *mux.Router, c *Case, body []byte, deadline time.Duration) (ou
 			req.Header.Set(kv[0], kv[1])
 		}
 	}
+	return req
+}
+
+// handedToTheRoute: the REAL WithOverallContextMiddleware (the first PreRequest of every ingest route) is run on the request, then
+// r.Body is read the way a parser reads it: how many decoded bytes does the route get? Counted up to max (the count never holds the bytes).
+func handedToTheRoute(c *Case, body []byte, max int) (n int, detail string) {
+	defer func() {
+		if p := recover(); p != nil {
+			n, detail = -1, fmt.Sprint("panic: ", p)
+		}
+	}()
+	pc := controllerv1.WithOverallContextMiddleware(&controllerv1.PusherCtx{})
+	if len(pc.PreRequest) != 1 {
+		return -1, fmt.Sprintf("WithOverallContextMiddleware registers %d PreRequest functions", len(pc.PreRequest))
+	}
+	req := newRequest(c, c.Req.Path, body)
+	if err := pc.PreRequest[0](httptest.NewRecorder(), req); err != nil {
+		return 0, "refused: " + firstN(err.Error(), 120)
+	}
+	k, err := io.Copy(io.Discard, io.LimitReader(req.Body, int64(max)))
+	if err != nil {
+		detail = firstN(err.Error(), 120)
+	}
+	return int(k), detail
+}
+
+// capAddressSpace: while a bomb is served the address space of the worker may grow by `room` bytes only (RLIMIT_AS, soft limit): a server
+// that inflates the bomb dies with "fatal error: out of memory" - an observation of this case - instead of taking the machine's memory.
+// Returns the function that lifts the cap.
+func capAddressSpace(room uint64) func() {
+	var old syscall.Rlimit
+	if syscall.Getrlimit(syscall.RLIMIT_AS, &old) != nil {
+		return func() {}
+	}
+	b, err := os.ReadFile("/proc/self/statm")
+	if err != nil {
+		return func() {}
+	}
+	var pages uint64
+	fmt.Sscan(string(b), &pages)
+	lim := syscall.Rlimit{Cur: pages*uint64(os.Getpagesize()) + room, Max: old.Max}
+	if lim.Cur > old.Max || syscall.Setrlimit(syscall.RLIMIT_AS, &lim) != nil {
+		return func() {}
+	}
+	return func() { syscall.Setrlimit(syscall.RLIMIT_AS, &old) }
+}
+
+func serve(router *mux.Router, c *Case, body []byte, deadline time.Duration) (outcome string, status int, detail string) {
+	q := url.Values{}
+	for _, kv := range c.Req.Query {
+		q.Add(kv[0], kv[1])
+	}
+	u := c.Req.Path
+	if len(q) > 0 {
+		u += "?" + q.Encode()
+	}
+	req := newRequest(c, u, body)
 	rec := httptest.NewRecorder()
 	done := make(chan string, 1)
 	go func() {
@@ -1776,14 +1910,22 @@ func worker(casesPath string, from int, deadline time.Duration) {
 		a0 := ms.TotalAlloc
 		rows0 := rowsSnapshot()
 		t0 := time.Now()
+		uncap := func() {}
+		if strings.HasSuffix(c.Class, "/ce-bomb") {
+			uncap = capAddressSpace(768 << 20)
+		}
 		outcome, status, detail := serve(router, c, body, deadline)
+		uncap()
 		rows1 := rowsSnapshot()
-		o := &Obs{Outcome: outcome, Status: status, Ms: time.Since(t0).Milliseconds(), Detail: detail, BodyLen: len(body) + c.Req.Fill, Limit: limit}
+		o := &Obs{Outcome: outcome, Status: status, Ms: time.Since(t0).Milliseconds(), Detail: detail, BodyLen: len(body) + c.Req.Fill, Limit: limit, Handed: -1}
 		runtime.ReadMemStats(&ms)
 		o.AllocKB = int64((ms.TotalAlloc - a0) / 1024)
 		o.DecodedLen = decodedLen(c.header("Content-Encoding"), body, limit+2)
 		if c.header("Content-Encoding") == "" {
 			o.DecodedLen += c.Req.Fill
+		}
+		if c.Stream == "limit" && c.L != nil {
+			o.Handed, o.HandedDetail = handedToTheRoute(c, body, limit+(1<<20))
 		}
 		helpers.SetGlobalLimit(2 * decodedLimit) // the canary and the census run under the default limit
 		if c.Stream == "frame" {
@@ -1924,7 +2066,7 @@ func supervise(casesPath string, cases []Case, deadline time.Duration, maxBad in
 				kind = "hang"
 				tail = "worker produced no output for " + silence.String() + " and was killed"
 			}
-			c.Obs = &Obs{Outcome: kind, Detail: fmt.Sprintf("worker exit: %v; %s", err, firstN(tail, 1500))}
+			c.Obs = &Obs{Outcome: kind, Handed: -1, Detail: fmt.Sprintf("worker exit: %v; %s", err, firstN(tail, 1500))}
 			for next < len(cases) && cases[next].Obs != nil {
 				next++
 			}
@@ -2146,10 +2288,14 @@ func main() {
 	deadline := time.Duration(*deadlineMs) * time.Millisecond
 	if *phrasesFile != "" {
 		var pf struct {
-			Phrases []string `json:"phrases"`
+			Phrases   []string `json:"phrases"`
+			Encodings []string `json:"content_encodings"`
 		}
 		if b, err := os.ReadFile(*phrasesFile); err == nil && json.Unmarshal(b, &pf) == nil && len(pf.Phrases) > 0 {
 			phrases = pf.Phrases
+			if len(pf.Encodings) > 0 {
+				contentEncodings = pf.Encodings
+			}
 		}
 	}
 	if *workerMode {
@@ -2186,6 +2332,14 @@ func main() {
 		}
 		for i := 0; i < *nframe; i++ {
 			cases = append(cases, genFrame(r, f.N+*nbytes+*ngeneric+*nlimit+i))
+		}
+		if *nlimit > 0 {
+			// after every other draw (the streams of a seed stay what they were): the fixed block of stream "limit"
+			for i, ce := range contentEncodings {
+				for k := 0; k < 3; k++ {
+					cases = append(cases, genLimitCE(r, 7000000+3*i+k, ce, k))
+				}
+			}
 		}
 	}
 	tmp := f.Out + ".cases"
